@@ -32,11 +32,11 @@ INV = ["TypeOK", "C46_RowsAtStop", "C46_RowsConserved", "C46_CacheBelowBatch", "
 
 def bcfg(ctx, name, ev, sd, idx, canonical=False, nres=2, constraints=()):
     return write_cfg(ctx.out / name, {"Batches": {0, 1, 2, 3}, "MaxEv": ev, "NStreams": 2, "MaxSD": sd, "NRes": nres, "MaxIdx": idx,
-                                      "MaxLen": 2, "Canonical": canonical}, invariants=INV, constraints=constraints)
+                                      "MaxLen": 2, "Canonical": canonical, "MaxRedesc": 1 if canonical else 0}, invariants=INV, constraints=constraints)
 
 
 def ops_sig(ops):
-    return "".join(f"e{o['d']}" if o["op"] == "event" else f"s{o['r']}[{o['a']},{o['b']})" for o in ops)
+    return "".join(f"e{o['d']}" if o["op"] == "event" else f"D{o['d']}" if o["op"] == "redesc" else f"s{o['r']}[{o['a']},{o['b']})" for o in ops)
 
 
 def compare_final(final, exp_rows, exp_arr):
@@ -66,6 +66,9 @@ def run(ctx):
                                     workers=3 if q else "auto", java_opts=JO if q else th.JO_BIG),
         "cases": lambda: run_tlc("TiledBatch", bcfg(ctx, "cases.cfg", 2 if q else 3, 2, 2 if q else 4, canonical=True, constraints=["DumpCase"]),
                                  spec_dir=SD, tag="C46d", timeout=3000, workers=1, java_opts=JO if q else th.JO_BIG),
+        # events only, one mid-run re-description of a stream (two descriptors for one stream): rows stay in seq_num order
+        "cases_redesc": lambda: run_tlc("TiledBatch", bcfg(ctx, "cases_redesc.cfg", 4 if q else 5, 0, 2, canonical=True, constraints=["DumpCase"]),
+                                        spec_dir=SD, tag="C46e", timeout=3000, workers=1, java_opts=JO),
     }
     box = {}
 
@@ -115,7 +118,7 @@ def run(ctx):
                               {"ops": ops, "keyof": keyof, "batch": batch, "pages": pages})
                 return
             nev = sum(o["op"] == "event" for o in ops)
-            nsd = len(ops) - nev
+            nsd = sum(o["op"] == "stream_datum" for o in ops)
             ctx.case((batch, tuple(keyof), ops_sig(ops), pages), (nev > 0 and nsd > 0) or nev > max(batch, 1))
             traces.append(trace)
             labels.append({"label": label, "ops": ops, "keyof": keyof, "batch": batch, "pages": pages, "read_back": detail})
@@ -132,7 +135,22 @@ def run(ctx):
         # ------------------------------------------------------------------ 2. TLC cases on the real TiledWriter
         t1 = time.time()
         nontriv = [c for c in cases if any(h["op"] == "stream_datum" for h in c["hist"]) and any(h["op"] == "event" for h in c["hist"])]
-        pick = rng.sample(nontriv, min(len(nontriv), 18 if q else 350)) + rng.sample(cases, min(len(cases), 4 if q else 40))
+        def straddles(c):
+            # the re-description falls inside a batch of its stream and a full batch follows it
+            h = c["hist"]
+            for i, e in enumerate(h):
+                if e["op"] == "redesc" and c["batch"] >= 2:
+                    before = sum(x["op"] == "event" and x["d"] == e["d"] for x in h[:i])
+                    after = sum(x["op"] == "event" and x["d"] == e["d"] for x in h[i:])
+                    if before % c["batch"] != 0 and after >= c["batch"]:
+                        return True
+            return False
+        rcases = th.printed_json(res["cases_redesc"].stdout, "CASE")
+        redesc = [c for c in rcases if straddles(c)]
+        if not redesc:
+            ctx.machinery("no re-description case straddling a batch printed by the cases_redesc configuration")
+        pick = (rng.sample(nontriv, min(len(nontriv), 18 if q else 350)) + rng.sample(cases, min(len(cases), 4 if q else 40))
+                + rng.sample(redesc, min(len(redesc), 6 if q else 60)))
         for c in pick:
             ops = [{"op": h["op"], "d": h["d"], "r": h["r"], "a": h["a"], "b": h["b"]} for h in c["hist"] if h["op"] != "stop"]
             execute(ops, list(c["keyof"]), c["batch"], "tlc-case", exp=c)
